@@ -107,6 +107,13 @@ func main() {
 	} else {
 		os.MkdirAll(tmp, 0755)
 	}
+	// os.Exit skips deferred calls: remove the scratch directory first
+	exit := func(code int) {
+		if *dump == "" {
+			os.RemoveAll(tmp)
+		}
+		os.Exit(code)
+	}
 	var allObls []*Obligation
 	var undecided []string
 	var funcsUnder []string
@@ -116,12 +123,12 @@ func main() {
 		eng, err := loadEngine(r.dir, r.pat, r.cs)
 		if err != nil {
 			fmt.Printf("UNDECIDED load-error %v\n", err)
-			os.Exit(2)
+			exit(2)
 		}
 		r.eng = eng
 		if err := eng.configure(); err != nil {
 			fmt.Printf("UNDECIDED contract-config-error %v\n", err)
-			os.Exit(2)
+			exit(2)
 		}
 		var names []string
 		for n, c := range r.cs.ByName {
@@ -130,7 +137,7 @@ func main() {
 			}
 			if _, ok := eng.funcs[n]; !ok {
 				fmt.Printf("UNDECIDED contract-target-missing %s (%s)\n", n, c.Src)
-				os.Exit(2)
+				exit(2)
 			}
 			if c.Trusted {
 				if contractHasTag(c, *prop) {
@@ -475,13 +482,13 @@ func main() {
 			}
 		}
 		fmt.Printf("UNDECIDED %d obligations could not be parsed by any solver (tool error, not a verdict)\n", len(solverErrors))
-		os.Exit(2)
+		exit(2)
 	}
 	if len(violations) > 0 {
-		os.Exit(1)
+		exit(1)
 	}
 	if len(undecided) > 0 {
-		os.Exit(2)
+		exit(2)
 	}
 }
 
